@@ -52,6 +52,10 @@ def custom_vocab(rng, unknown_ok=None, n_macros=12, n_envs=5, full_cover_index=N
     macros['txt'] = D.M('{', ['text'])
     macros['mth'] = D.M('{', ['math'])
     macros['txto'] = D.M('[{', ['text', 'text'])
+    # an argument that changes the mode followed by one that does not (it inherits the mode of the call's parent)
+    macros['annot'] = D.M('{{', ['text', None])
+    macros['mlabel'] = D.M('[{', ['math', None])
+    macros['tmix'] = D.M('{{{', [None, 'math', None])
     macros['vv'] = D.M('v')
     macros['tens'] = D.M(['e{^_}'], hidden=True)     # embellishments: used by hand-written documents only
     macros['vvb'] = D.M(['{', 'v'])
